@@ -231,7 +231,15 @@ def r5(run, ctx):
     cons = ctx.nodes_calling(sp, ['circus.process:Process.__init__'])
     run.need('R5', cons, 'Process construction in spawn_process', sp)
     inner_guard = all(_not_stopped_guard(ctx, sp, n) for n in cons)
-    run.ok('R5', 'spawn_process construction guarded internally: %s' % inner_guard)
+    # the spawn loops sleep (warmup) between two workers: a stop can complete in between, so
+    # the status has to be looked at again at the point where the worker is created
+    for n in cons:
+        run.check('R5', _not_stopped_guard(ctx, sp, n), 'spawn_process itself refuses to create '
+                  'a worker for a stopped watcher', sp, n.ast,
+                  'spawn_process creates the worker without testing is_stopped(): a start loop '
+                  'that is sleeping between two spawns when a stop completes adds a worker to '
+                  'the stopped watcher (and then marks it active)',
+                  construct='spawn without stopped test')
     npaths = 0
     bad = []
 
